@@ -6,9 +6,11 @@ package gv
 
 import (
 	"fmt"
+	"math/big"
 	"reflect"
 	"sort"
 	"strings"
+	"time"
 
 	kmip "github.com/ovh/kmip-go"
 	"github.com/ovh/kmip-go/ttlv"
@@ -225,6 +227,15 @@ func CoveragePlan() []Case {
 			p = append(p, c)
 		}
 	}
+	// H. deterministic sweeps of the scalar boundary pools over two fixed message shapes
+	//    (all attributes; a private key with transparent RSA material: big integers)
+	for sw := 1; sw <= SweepLen(); sw++ {
+		p = append(p, Case{Ver: ver(sw), Opts: Opts{Fill: FillMax, Sweep: sw, Ops: []kmip.Operation{kmip.OperationCreate}, Attrs: u.Attrs, AttrDefault: kmip.AttributeNameUniqueIdentifier}, Note: "H/sweep"})
+	}
+	for sw := 1; sw <= BigSweepLen(); sw += 7 { // 8 big integers per message
+		p = append(p, Case{Ver: ver(sw), Opts: Opts{Fill: FillMax, Sweep: sw, Ops: []kmip.Operation{kmip.OperationRegister}, Object: kmip.ObjectTypePrivateKey,
+			KeyFormat: kmip.KeyFormatTypeTransparentRSAPrivateKey, KeyValue: KVPlain, AttrDefault: kmip.AttributeNameUniqueIdentifier}, Note: "H/sweep-big"})
+	}
 	// F. unconstrained random messages
 	for i := 0; i < 40; i++ {
 		p = append(p, Case{Response: i%2 == 1, Ver: ver(i / 2), Opts: Opts{}, Note: "F/random"})
@@ -364,10 +375,10 @@ func Describe(msg any) string {
 
 // Coverage accumulates what a set of messages exercised.
 type Coverage struct {
-	NonZero map[string]int            // "pkg.Type.Field" -> occurrences with a non-empty value
-	Zero    map[string]int            // ... with the zero / nil / empty value
+	NonZero map[string]int               // "pkg.Type.Field" -> occurrences with a non-empty value
+	Zero    map[string]int               // ... with the zero / nil / empty value
 	Gated   map[string]map[string][2]int // version-gated field -> "major.minor" -> {empty, populated}
-	Alt     map[string]int            // alternatives of unions and message shapes
+	Alt     map[string]int               // alternatives of unions and message shapes
 	ver     string
 }
 
@@ -411,9 +422,64 @@ func present(b bool) string {
 	return "absent"
 }
 
+// scalar accounts the boundary pool element a scalar value is (if any).
+func (c *Coverage) scalar(v reflect.Value) {
+	t := v.Type()
+	idx := func(pool []int64, x int64) bool {
+		for _, p := range pool {
+			if p == x {
+				return true
+			}
+		}
+		return false
+	}
+	switch ScalarKind(t) {
+	case "KInt32":
+		if idx(poolI32, v.Int()) {
+			c.Alt[fmt.Sprintf("pool:int32:%d", v.Int())]++
+		}
+	case "KInt64":
+		if idx(poolI64, v.Int()) {
+			c.Alt[fmt.Sprintf("pool:int64:%d", v.Int())]++
+		}
+	case "KDuration":
+		if s := v.Int() / 1e9; v.Int()%1e9 == 0 && idx(poolU32, s) {
+			c.Alt[fmt.Sprintf("pool:duration:%d", s)]++
+		}
+	case "KTime":
+		if x := v.Interface().(time.Time).Unix(); idx(datePool, x) {
+			c.Alt[fmt.Sprintf("pool:date:%d", x)]++
+		}
+	case "KString":
+		if t == attrNameType {
+			return
+		}
+		for i, p := range poolText {
+			if p == v.String() {
+				c.Alt[fmt.Sprintf("pool:text:%d", i)]++
+			}
+		}
+	case "KBytes":
+		if v.Len() < 18 {
+			c.Alt[fmt.Sprintf("pool:byteslen:%d", v.Len())]++
+		}
+	case "KBigInt":
+		b := v.Interface().(big.Int)
+		for i, p := range poolBig {
+			if p.Cmp(&b) == 0 {
+				c.Alt[fmt.Sprintf("pool:big:%d", i)]++
+			}
+		}
+	}
+}
+
 func (c *Coverage) walk(v reflect.Value) {
 	t := v.Type()
-	if IsTree(t) || ScalarKind(t) != "" {
+	if IsTree(t) {
+		return
+	}
+	if ScalarKind(t) != "" {
+		c.scalar(v)
 		return
 	}
 	switch t.Kind() {
@@ -584,6 +650,27 @@ func (c *Coverage) Missing() []string {
 		for kind := tv.KStruct; kind <= tv.KIntv; kind++ {
 			need("attrtree:" + k + ":" + tv.KindName[kind])
 		}
+	}
+	for _, x := range poolI32 {
+		need(fmt.Sprintf("pool:int32:%d", x))
+	}
+	for _, x := range poolI64 {
+		need(fmt.Sprintf("pool:int64:%d", x))
+	}
+	for _, x := range poolU32 {
+		need(fmt.Sprintf("pool:duration:%d", x))
+	}
+	for _, x := range datePool {
+		need(fmt.Sprintf("pool:date:%d", x))
+	}
+	for i := range poolText {
+		need(fmt.Sprintf("pool:text:%d", i))
+	}
+	for i := 0; i < 18; i++ {
+		need(fmt.Sprintf("pool:byteslen:%d", i))
+	}
+	for i := range poolBig {
+		need(fmt.Sprintf("pool:big:%d", i))
 	}
 	sort.Strings(miss)
 	// remove duplicates (an attribute may be both in AllAttributeNames and in the table)
